@@ -175,6 +175,14 @@ int aws_format_standard_log_line(struct aws_logging_standard_formatting_data *fo
     }
 
     /*
+     * A truncated write leaves its string terminator in the last byte it was allowed to use; the newline has to
+     * go over that terminator, otherwise the line would end in two NULs instead of a newline.
+     */
+    if (current_index == fake_total_length && current_index > 0) {
+        current_index -= 1;
+    }
+
+    /*
      * End with a newline.
      */
     int newline_written_count =
